@@ -781,6 +781,10 @@ func c04ParserDiscipline(p *core.Prog, r *core.Run, rule string, fns []*ssa.Func
 			r.Undecided(rule, "parser", "-", "one of the parsers this rule covers was not found (renamed or dissolved)")
 			continue
 		}
+		if p.DeadLiteral(fn) {
+			// (a local helper all of whose calls were inlined: judged in the copies)
+			continue
+		}
 		for _, s := range callSites(p, []*ssa.Function{fn}, `\(\*cryptobyte\.String\)\.(Read.*|Skip|Copy.*)`) {
 			c, ok := s.Instr.(*ssa.Call)
 			if !ok {
@@ -789,115 +793,140 @@ func c04ParserDiscipline(p *core.Prog, r *core.Run, rule string, fns []*ssa.Func
 			n++
 			key := fmt.Sprintf("%s:%s@%s", p.FuncName(fn), lastDot(s.X.Name), readTarget(p, s))
 			pos := p.InstrPos(c)
-			// find the If that tests the result (directly or through !)
-			var iff *ssa.If
-			neg := false
-			var follow func(v ssa.Value, n bool)
-			follow = func(v ssa.Value, nn bool) {
-				for _, ref := range *v.Referrers() {
-					switch x := ref.(type) {
-					case *ssa.If:
-						iff, neg = x, nn
-					case *ssa.UnOp:
-						if x.Op == token.NOT {
-							follow(x, !nn)
+			var judge func(c *ssa.Call, depth int) (bool, string)
+			judge = func(c *ssa.Call, depth int) (bool, string) {
+				// find the If that tests the result (directly or through !)
+				var iff *ssa.If
+				neg := false
+				var follow func(v ssa.Value, n bool)
+				follow = func(v ssa.Value, nn bool) {
+					for _, ref := range *v.Referrers() {
+						switch x := ref.(type) {
+						case *ssa.If:
+							iff, neg = x, nn
+						case *ssa.UnOp:
+							if x.Op == token.NOT {
+								follow(x, !nn)
+							}
 						}
 					}
 				}
-			}
-			follow(c, false)
-			if iff == nil {
-				r.Check(rule, key, false, pos, "the result of %s is not tested: a truncated input is read as zero values", s.X.Name)
-				continue
-			}
-			fail := iff.Block().Succs[1]
-			if neg {
-				fail = iff.Block().Succs[0]
-			}
-			// `ok := s.ReadX(..) && s.ReadY(..) && ...; if !ok { return err }`: the
-			// failing edge enters a merge that records "false" and tests it at
-			// once: the way on is the one a false flag takes
-			from := iff.Block()
-			for hop := 0; hop < 3; hop++ {
-				var flag *ssa.Phi
-				val, known := false, false
-				for _, in := range fail.Instrs {
-					ph, isPhi := in.(*ssa.Phi)
-					if !isPhi {
+				follow(c, false)
+				if iff == nil {
+					return false, "its result is not tested: a truncated input is read as zero values"
+				}
+				fail := iff.Block().Succs[1]
+				if neg {
+					fail = iff.Block().Succs[0]
+				}
+				// `ok := s.ReadX(..) && s.ReadY(..) && ...; if !ok { return err }`: the
+				// failing edge enters a merge that records "false" and tests it at
+				// once: the way on is the one a false flag takes
+				from := iff.Block()
+				for hop := 0; hop < 3; hop++ {
+					var flag *ssa.Phi
+					val, known := false, false
+					for _, in := range fail.Instrs {
+						ph, isPhi := in.(*ssa.Phi)
+						if !isPhi {
+							break
+						}
+						for k, pr := range fail.Preds {
+							if pr != from {
+								continue
+							}
+							if cst, isC := ph.Edges[k].(*ssa.Const); isC && cst.Value != nil && (cst.Value.ExactString() == "true" || cst.Value.ExactString() == "false") {
+								flag, val, known = ph, cst.Value.ExactString() == "true", true
+							}
+						}
+					}
+					if !known {
 						break
 					}
-					for k, pr := range fail.Preds {
-						if pr != from {
-							continue
-						}
-						if cst, isC := ph.Edges[k].(*ssa.Const); isC && cst.Value != nil && (cst.Value.ExactString() == "true" || cst.Value.ExactString() == "false") {
-							flag, val, known = ph, cst.Value.ExactString() == "true", true
-						}
-					}
-				}
-				if !known {
-					break
-				}
-				next, isIf := fail.Instrs[len(fail.Instrs)-1].(*ssa.If)
-				if !isIf {
-					break
-				}
-				cond, inv := next.Cond, false
-				for {
-					u, isNot := cond.(*ssa.UnOp)
-					if !isNot || u.Op != token.NOT {
+					next, isIf := fail.Instrs[len(fail.Instrs)-1].(*ssa.If)
+					if !isIf {
 						break
 					}
-					cond, inv = u.X, !inv
-				}
-				if cond != ssa.Value(flag) {
-					break
-				}
-				// only the flag (and its negation) may be computed in between
-				pure := true
-				for _, in := range fail.Instrs[:len(fail.Instrs)-1] {
-					switch x := in.(type) {
-					case *ssa.Phi:
-					case *ssa.UnOp:
-						if x.Op != token.NOT {
+					cond, inv := next.Cond, false
+					for {
+						u, isNot := cond.(*ssa.UnOp)
+						if !isNot || u.Op != token.NOT {
+							break
+						}
+						cond, inv = u.X, !inv
+					}
+					if cond != ssa.Value(flag) {
+						break
+					}
+					// only the flag (and its negation) may be computed in between
+					pure := true
+					for _, in := range fail.Instrs[:len(fail.Instrs)-1] {
+						switch x := in.(type) {
+						case *ssa.Phi:
+						case *ssa.UnOp:
+							if x.Op != token.NOT {
+								pure = false
+							}
+						default:
 							pure = false
 						}
-					default:
-						pure = false
+					}
+					if !pure {
+						break
+					}
+					taken := val != inv
+					from = fail
+					if taken {
+						fail = fail.Succs[0]
+					} else {
+						fail = fail.Succs[1]
 					}
 				}
-				if !pure {
-					break
+				good := true
+				why := ""
+				reach := core.Reachable(fail, nil)
+				if reach[iff.Block()] {
+					good, why = false, "the failing branch continues the loop"
 				}
-				taken := val != inv
-				from = fail
-				if taken {
-					fail = fail.Succs[0]
-				} else {
-					fail = fail.Succs[1]
+				rets := 0
+				for blk := range reach {
+					ret, isRet := blk.Instrs[len(blk.Instrs)-1].(*ssa.Return)
+					if !isRet {
+						continue
+					}
+					rets++
+					// a local read helper (a literal that reports success as a bool): its
+					// "false" is judged where the helper is called
+					if lit := blk.Parent(); lit.Parent() != nil && depth < 2 && len(ret.Results) == 1 {
+						if cst, isC := ret.Results[0].(*ssa.Const); isC && cst.Value != nil && cst.Value.ExactString() == "false" {
+							nCalls := 0
+							for _, cs := range allCalls(p, core.Closures(core.Root(lit))) {
+								cc, isCall := cs.Instr.(*ssa.Call)
+								if !isCall || (cs.X.Fn != lit && p.ResolveFuncValue(cc.Call.Value) != lit) {
+									continue
+								}
+								nCalls++
+								if g2, w2 := judge(cc, depth+1); !g2 {
+									good, why = false, "through the helper "+lit.Name()+": "+w2
+								}
+							}
+							if nCalls == 0 {
+								good, why = false, "the helper "+lit.Name()+" is not called directly"
+							}
+							continue
+						}
+					}
+					got := errorSentinels(p, retErr(ret))
+					if len(got) != 1 || !allowed[got[0]] {
+						good, why = false, fmt.Sprintf("the failing branch returns %v", got)
+					}
 				}
-			}
-			good := true
-			why := ""
-			reach := core.Reachable(fail, nil)
-			if reach[iff.Block()] {
-				good, why = false, "the failing branch continues the loop"
-			}
-			rets := 0
-			for blk := range reach {
-				ret, isRet := blk.Instrs[len(blk.Instrs)-1].(*ssa.Return)
-				if !isRet {
-					continue
+				if rets == 0 {
+					good, why = false, "the failing branch does not return"
 				}
-				rets++
-				got := errorSentinels(p, retErr(ret))
-				if len(got) != 1 || !allowed[got[0]] {
-					good, why = false, fmt.Sprintf("the failing branch returns %v", got)
-				}
+				return good, why
 			}
-			if rets == 0 {
-				good, why = false, "the failing branch does not return"
-			}
+			good, why := judge(c, 0)
 			r.Check(rule, key, good, pos, "failed %s returns decode_error/illegal_parameter %s", lastDot(s.X.Name), why)
 		}
 	}
